@@ -113,6 +113,14 @@ type Machine struct {
 	curPos      token.Pos
 	allocBudget *Term
 	fmtDepth    int
+	fmtMemo     map[*Term]Str
+	hornerOf    map[*Term]*Term
+	lastWhat    string
+	selMemo     map[*Term]*Term
+	defEq       map[*Term]*Term
+	rwMemo      map[*Term]*Term
+	facts       map[*Term]ival
+	factsLen    int
 	ghost       map[string]Value
 	timerOf     map[*Value]*simTimer
 	gwg         sync.WaitGroup
@@ -433,7 +441,11 @@ func (m *Machine) exec(fr *frame, in ssa.Instruction) int {
 	case *ssa.Send:
 		m.chanSend(fr.get(m, in.Chan), fr.get(m, in.X))
 	case *ssa.Store:
-		p := fr.get(m, in.Addr).(*Value)
+		if r, ok := fr.get(m, in.Addr).(*SymRef); ok {
+			m.storeRef(r, fr.get(m, in.Val))
+			break
+		}
+		p := m.asPtr(fr.get(m, in.Addr), "store")
 		if p == nil {
 			m.goPanic("nil pointer dereference (store)")
 		}
@@ -473,7 +485,7 @@ func (m *Machine) exec(fr *frame, in ssa.Instruction) int {
 	case *ssa.Next:
 		fr.set(in, m.next(fr.get(m, in.Iter).(*iter), in))
 	case *ssa.FieldAddr:
-		p := fr.get(m, in.X).(*Value)
+		p := m.asPtr(fr.get(m, in.X), "fieldaddr")
 		if p == nil {
 			m.goPanic("nil pointer dereference (field " + in.X.Type().Underlying().(*types.Pointer).Elem().Underlying().(*types.Struct).Field(in.Field).Name() + ")")
 		}
@@ -602,7 +614,20 @@ func (m *Machine) require(ok *Term, kind, msg string) {
 		return
 	}
 	m.Stats.Branches++
+	if len(m.defEq) > 0 {
+		ok = m.rewrite(ok)
+		if ok.IsTrue() {
+			return
+		}
+	}
+	if v, dec := m.decide(ok); dec && v {
+		return
+	}
 	bad := m.ctx.Not(ok)
+	m.lastWhat = kind + ": " + msg
+	if m.solver.OnSlow != nil {
+		m.lastWhat += " TERM " + ok.String()
+	}
 	switch m.solver.Check(m.pc, bad) {
 	case Sat:
 		m.reportModel(kind, msg, false)
@@ -634,6 +659,12 @@ func (m *Machine) branch(cond *Term) bool {
 		return r
 	}
 	m.Stats.Branches++
+	if len(m.defEq) > 0 {
+		cond = m.rewrite(cond)
+		if cond.IsConst() {
+			return cond.C == 1
+		}
+	}
 	ncond := m.ctx.Not(cond)
 	k := m.depth
 	m.depth++
@@ -655,6 +686,16 @@ func (m *Machine) branch(cond *Term) bool {
 			m.prefix = append(m.prefix, Choice{I: 1})
 			return false
 		}
+	}
+	if v, ok := m.decide(cond); ok {
+		if v {
+			m.prefix = append(m.prefix, Choice{I: 0})
+			m.pc = append(m.pc, cond)
+			return true
+		}
+		m.prefix = append(m.prefix, Choice{I: 1})
+		m.pc = append(m.pc, ncond)
+		return false
 	}
 	rt := m.solver.Check(m.pc, cond)
 	if rt == Unsat {
@@ -708,6 +749,7 @@ func (m *Machine) choose(n int, what string) int {
 
 // assume adds a constraint; ends the path if it is infeasible.
 func (m *Machine) assume(c *Term) {
+	c = m.rewrite(c)
 	if c.IsTrue() {
 		return
 	}
@@ -732,6 +774,7 @@ func (m *Machine) assume(c *Term) {
 
 // concretize forks over the feasible values of t.
 func (m *Machine) concretize(t *Term, what string) uint64 {
+	t = m.rewrite(t)
 	if t.IsConst() {
 		return t.C
 	}
